@@ -58,6 +58,10 @@ for _kind in ("move", "rapid", "move_absolute", "rapid_absolute"):
          group="motion")
 _add("move(x,E)", lambda g, f, n: g.move(x=f[0], E=f[1]), nf=2,
      argbad=lambda f, n: _nonfinite(f[0]) or _nonfinite(f[1]), group="motion")
+# the same words under lower-case keyword names (parameter names are case-insensitive)
+_add("move(y,f,s)", lambda g, f, n: g.move(y=f[0], f=f[1], s=f[2]), nf=3,
+     argbad=lambda f, n: _nonfinite(f[0]) or _neg_or_nonfinite(f[1]) or _neg_or_nonfinite(f[2]),
+     group="motion")
 _add("move(F)", lambda g, f, n: g.move(F=f[0]), nf=1,
      argbad=lambda f, n: _neg_or_nonfinite(f[0]), group="motion")
 for _mode in ("towards", "away-no-error"):
@@ -142,6 +146,10 @@ for _m in ("wait-for-bed", "wait-for-hotend", "wait-for-chamber"):
          argbad=lambda f, n: _nonfinite(f[0]), interlock="needs-idle", group="halt")
     _add(f"halt:{_m}(R)", (lambda m: lambda g, f, n: g.halt(m, R=f[0]))(_m), nf=1,
          argbad=lambda f, n: _nonfinite(f[0]), interlock="needs-idle", group="halt")
+_add("halt:wait-for-bed(s)", lambda g, f, n: g.halt("wait-for-bed", s=f[0]), nf=1,
+     argbad=lambda f, n: _nonfinite(f[0]), interlock="needs-idle", group="halt")
+_add("halt:wait-for-hotend(r)", lambda g, f, n: g.halt("wait-for-hotend", r=f[0]), nf=1,
+     argbad=lambda f, n: _nonfinite(f[0]), interlock="needs-idle", group="halt")
 _add("halt:pause(S)", lambda g, f, n: g.halt("pause", S=f[0]), nf=1,
      argbad=lambda f, n: _nonfinite(f[0]), interlock="needs-idle", group="halt")
 _add("halt:off", lambda g, f, n: g.halt("off"), argbad=lambda f, n: True, group="halt")
